@@ -512,6 +512,11 @@ func vfUF(tag string, in []byte, n int) []byte {
 // on this path (natively: the harness chooses deadlines accordingly).
 func vfTimersFire(b bool) {}
 
+// vfSchedBound sets the engine's preemption bound for goroutines the library
+// itself starts on this path (0: a goroutine runs only while the others are
+// blocked). Natively such goroutines are scheduled by the Go runtime.
+func vfSchedBound(n int) {}
+
 // vfSymbolic is true when the harness is executed by the symbolic engine and
 // false in a native replay.
 func vfSymbolic() bool { return false }
